@@ -225,6 +225,9 @@ type Node struct {
 	PreName string
 	// ExtraFields are destination fields the schema does not name (Struct only)
 	ExtraFields []ExtraField
+	// ViaMerge (Struct only): the real schema is assembled as part1.Merge(part2, part3): fields, struct-level tests and
+	// post-transforms are split over three partial schemas in order. Documented to be the same schema.
+	ViaMerge bool
 }
 
 // CoercerSpec is a z.WithCoercer option: the coercer returns Mark (of the node's Go type) for any input, or an error when Fail.
